@@ -1606,10 +1606,7 @@ def run_reads_stream(ctx):
 
 def run(ctx):
     from .common import REPO
-    if ctx.lean is None or ctx.lean.driver_ok:
-        run_reads_stream(ctx)
-        run_events_stream(ctx)
-        run_state_stream(ctx)
+    streams_ok = ctx.lean is None or ctx.lean.driver_ok
     ctx.rule = ("one case = (operation, shape family, construction) with the operation measured at every depth of the tier and "
                 "run once more beyond the recursion limit; non-trivial = the operation ran (did not reject the shape) at every "
                 "depth. Oracle: call depth grows by <= %d between consecutive depths (seeded random shapes, which are not homogeneous: "
@@ -1637,7 +1634,7 @@ def run(ctx):
         # copying a builder-less tree costs O(depth) per element (_is_xml walks up to the root): half the depth, still
         # well beyond the recursion limit
         return [x // 2 for x in deep_all] if fam in ("builderless", "repeated") else deep_all
-    nrand = ctx.n(3, 10)
+    nrand = ctx.n(2, 10)
     r = ctx.rng("families")
     fams = list(FAMILIES) + ["random:%d:%d" % (ctx.seed, r.randrange(10 ** 6)) for _ in range(nrand)]
     jobs = {fam: _jobs_for(fam, ctx.thorough) for fam in fams}
@@ -1647,6 +1644,10 @@ def run(ctx):
         order = sorted(fams, key=lambda f: (0 if f == "builderless" else 1 if f == "repeated" else 3 if is_markup_only(f) else 2))
         futs = {fam: ex.submit(run_worker, str(REPO), fam, [(op, b, op_deep(op, deep_of(fam))) for op, b in jobs[fam]],
                                depths, deep_of(fam)) for fam in order}
+        if streams_ok:                      # the in-process differential streams run while the workers measure
+            run_reads_stream(ctx)
+            run_events_stream(ctx)
+            run_state_stream(ctx)
         results = {fam: f.result() for fam, f in futs.items()}
     ctx.extra["measure_wall_s"] = round(time.time() - t0, 1)
 
